@@ -48,6 +48,9 @@ pub fn replay_other(prop: &str, kind: &str, case: &serde_json::Value) -> Result<
     if kind == "wasm" || kind == "wasm-qr" {
         return c17::replay(case);
     }
+    if kind == "build-history" || kind == "rebuild-history" {
+        return crate::sweep::replay_history(prop, kind, case);
+    }
     if kind == "history" || kind == "schedule" {
         return c14::replay(case);
     }
